@@ -191,6 +191,12 @@ MUTANTS = [
     ('C20', 'linear_layer.py', '        (input_max and input_max.count(None) < len(input_max))):',
      '        (input_max and input_max.count(None) <= len(input_max))):', 'W4',
      'clip constants stored for an all-None upper bound list'),
+    ('C16', 'lattice_lib.py', '    main_dims.add(main_dim)\n    cond_dims.add(cond_dim)',
+     '    main_dims = set()\n    main_dims.add(main_dim)\n    cond_dims.add(cond_dim)', 'S14',
+     'accumulator of the main dimensions re-created in every iteration'),
+    ('C16', 'premade_lib.py', '  for feature_config in model_config.feature_configs:\n    for regularizer_config in feature_config.regularizer_configs or []:\n      if not regularizer_config.name.startswith(\n          _INPUT_CALIB_REGULARIZER_PREFIX):\n        raise ValueError(\n            \'KroneckerFactoredLattice',
+     '  for feature_config in model_config.feature_configs:\n    for regularizer_config in model_config.regularizer_configs or []:\n      if not regularizer_config.name.startswith(\n          _INPUT_CALIB_REGULARIZER_PREFIX):\n        raise ValueError(\n            \'KroneckerFactoredLattice', 'X9',
+     'per-feature regularizer check reads the model-level list'),
     # ---- neutral variants (must stay silent)
     ('C08', 'lattice_lib.py', '    average = (layers[i] + layers[i + 1]) / 2.0', '    average = 0.5 * (layers[i] + layers[i + 1])',
      None, 'N: average written as 0.5 * sum'),
